@@ -236,7 +236,7 @@ def run_shard(ctx):
     rng = ctx.rng
     thorough = ctx.tier == "thorough"
     versions = list(range(100, 200)) + V2_SUPPORTED
-    reps = 4 if not thorough else 40
+    reps = 4 if not thorough else 120
     for i, version in enumerate(versions):
         if i % ctx.nshards != ctx.shard:
             continue
